@@ -3,10 +3,12 @@
 Scanner memory safety / termination / stop conditions by function and loop
 contracts on the mechanically C-extracted real text (dfcc), and the
 escape/unescape codec through the C++ front end (bounded)."""
+import os
 import re
 
 from vp.core import Group, Undecided
 from vp.extract import extract_function, extract_block, extract_span, rewrite, insert_loop_contracts
+from vp import replay_C12
 
 LEVEL = 'other'
 EXPLANATION = (
@@ -20,7 +22,7 @@ EXPLANATION = (
     'cursor (and line bookkeeping) is assigned.  Callers are checked against callee contracts.  '
     '(4) escape/unescape are compiled by the C++ front end from their real text: round trip and '
     '"every quote in the output is escaped" for every byte string up to the tier bound (bounded).')
-TRUSTED = ['cbmc 6.11.0 C and C++ front ends, goto-instrument --dfcc (contract instrumentation), SAT back end',
+TRUSTED = ['cbmc 6.11.0 C and C++ front ends, goto-instrument --dfcc (contract instrumentation), SAT back end (MiniSat; CaDiCaL for lex/skipTo_se)',
            'C extraction rules of DESIGN 4.2: reference parameter -> pointer + #define alias, ns::name -> ns_name, '
            'overloads numbered by signature, bool -> _Bool (stdbool.h)',
            'stubs/string: fixed-capacity std::string (capacity asserted on every append)',
@@ -49,8 +51,8 @@ PRIM_HPP = 'include/occa/types/primitive.hpp'
 STRING_CPP = 'src/occa/internal/utils/string.cpp'
 STRING_HPP = 'src/occa/internal/utils/string.hpp'
 
-GHOSTS = '''const char *verif_buf; size_t verif_len; size_t verif_g;
-const char *verif_cs; size_t verif_cs_len;
+GHOSTS = '''const char *verif_buf; size_t verif_len; size_t verif_g; char verif_gv, verif_gp;
+char verif_cs_arr[VERIF_K + 1]; const char *verif_cs; size_t verif_cs_len; _Bool verif_member[256];
 '''
 
 WS = r'\s*'
@@ -128,15 +130,15 @@ def lex_unit(ctx):
 
 
 LEX_HARNESS = {
-    'lex_inCharset': 'char c; const char *cs; lex_inCharset(c, cs);',
-    'lex_skipTo_c': 'const char **c; char d; lex_skipTo_c(c, d);',
-    'lex_skipTo_ce': 'const char **c; char d, e; lex_skipTo_ce(c, d, e);',
-    'lex_skipTo_s': 'const char **c; const char *ds; lex_skipTo_s(c, ds);',
-    'lex_skipTo_se': 'const char **c; const char *ds; char e; lex_skipTo_se(c, ds, e);',
-    'lex_skipFrom': 'const char **c; const char *ds; lex_skipFrom(c, ds);',
-    'lex_isWhitespace': 'char c; verif_cs = lex_whitespaceCharset; verif_cs_len = sizeof(lex_whitespaceCharset) - 1; lex_isWhitespace(c);',
-    'lex_skipWhitespace': 'const char **c; verif_cs = lex_whitespaceCharset; verif_cs_len = sizeof(lex_whitespaceCharset) - 1; lex_skipWhitespace(c);',
-    'lex_skipToWhitespace': 'const char **c; verif_cs = lex_whitespaceCharset; verif_cs_len = sizeof(lex_whitespaceCharset) - 1; lex_skipToWhitespace(c);',
+    'lex_inCharset': 'char c; const char *cs; verif_cs = verif_cs_arr; lex_inCharset(c, cs);',
+    'lex_skipTo_c': 'ALLOC_BUF; const char *cur; const char **c = &cur; char d; lex_skipTo_c(c, d);',
+    'lex_skipTo_ce': 'ALLOC_BUF; const char *cur; const char **c = &cur; char d, e; lex_skipTo_ce(c, d, e);',
+    'lex_skipTo_s': 'ALLOC_BUF; const char *cur; const char **c = &cur; const char *ds; verif_cs = verif_cs_arr; lex_skipTo_s(c, ds);',
+    'lex_skipTo_se': 'ALLOC_BUF; const char *cur; const char **c = &cur; const char *ds; verif_cs = verif_cs_arr; char e; lex_skipTo_se(c, ds, e);',
+    'lex_skipFrom': 'ALLOC_BUF; const char *cur; const char **c = &cur; const char *ds; verif_cs = verif_cs_arr; lex_skipFrom(c, ds);',
+    'lex_isWhitespace': 'char c; verif_cs = lex_whitespaceCharset; verif_cs_len = sizeof(lex_whitespaceCharset) - 1; INSTALL_WS_TABLE; lex_isWhitespace(c);',
+    'lex_skipWhitespace': 'ALLOC_BUF; const char *cur; const char **c = &cur; verif_cs = lex_whitespaceCharset; verif_cs_len = sizeof(lex_whitespaceCharset) - 1; INSTALL_WS_TABLE; lex_skipWhitespace(c);',
+    'lex_skipToWhitespace': 'ALLOC_BUF; const char *cur; const char **c = &cur; verif_cs = lex_whitespaceCharset; verif_cs_len = sizeof(lex_whitespaceCharset) - 1; INSTALL_WS_TABLE; lex_skipToWhitespace(c);',
 }
 LEX_REPLACE = {
     'lex_skipTo_s': ['lex_inCharset'], 'lex_skipTo_se': ['lex_inCharset'], 'lex_skipFrom': ['lex_inCharset'],
@@ -158,18 +160,430 @@ def lex_groups(ctx):
         if cname == 'lex_isWhitespace':
             canary = ('\n#ifdef CANARY\n  __CPROVER_assert(c != 11, "canary: state after the call is reachable");\n#endif\n')
         src += 'void h_%s(void) {\n  %s%s}\n' % (cname, body, canary)
+    # the whitespace table of the contracts is the characteristic function of the real array
+    src += '''void h_ws_table(void) {
+  char ch;
+  INSTALL_WS_TABLE;
+  __CPROVER_assert(WS_TABLE, "the installed whitespace table is the table of the six whitespace characters");
+  verif_cs = lex_whitespaceCharset; verif_cs_len = sizeof(lex_whitespaceCharset) - 1;
+  __CPROVER_assert(sizeof(lex_whitespaceCharset) == 7, "lex::whitespaceCharset has six characters and a terminator");
+  __CPROVER_assert(CS_EXACT, "lex::whitespaceCharset has no interior NUL");
+  __CPROVER_assert(IN_SET(ch) == CS_MEMBER(ch), "whitespace table == membership in the real lex::whitespaceCharset");
+  __CPROVER_assert(IN_SET(ch) == IS_WS(ch), "whitespace table == the six whitespace characters");
+#ifdef CANARY
+  __CPROVER_assert(!IN_SET(ch), "canary: the whitespace table is not empty");
+#endif
+}
+'''
     groups = []
-    for cname, csig, rx, extra, nloops, byref in LEX_FUNCS:
+    common = dict(sources={'lex.c': src}, lang='c', loop_contracts=True, canary='CANARY', canary_label='canary',
+                  strength='proof', timeout=240, replay=replay_C12.replay_lex)
+    ws = exs['lex::whitespaceCharset']
+    groups.append(Group(
+        name='lex/inCharset/any-set', entry='h_lex_inCharset', enforce=['lex_inCharset'], defines=['C12_ANYSET'],
+        expect_loops=1, min_obligations=10, functions=[exs['lex_inCharset']],
+        note='set = fresh object of exactly strlen+1 bytes, any length <= 10^8, interior NULs allowed', **common))
+    groups.append(Group(
+        name='lex/inCharset/membership', entry='h_lex_inCharset', enforce=['lex_inCharset'],
+        expect_loops=1, min_obligations=10, functions=[exs['lex_inCharset']],
+        bound='',
+        note='result == exact membership (64-way disjunction over the string) == ghost table entry; sets of <= 64 characters',
+        **common))
+    for cname, csig, rx, extra, nloops, byref in LEX_FUNCS[1:]:
         groups.append(Group(
-            name='lex/' + cname[4:], sources={'lex.c': src}, entry='h_' + cname, lang='c',
-            enforce=[cname], replace=LEX_REPLACE.get(cname, []), loop_contracts=True,
-            expect_loops=nloops, min_obligations=10, functions=[exs[cname], exs['lex::whitespaceCharset']],
-            canary='CANARY', canary_label='canary', strength='proof', timeout=600,
-            note='buffer of symbolic length <= 10^8, arbitrary content; loop closed by loop contract'))
+            name='lex/' + cname[4:], entry='h_' + cname, defines=['C12_LINK_ASSUMED'],
+            enforce=[cname], replace=LEX_REPLACE.get(cname, []),
+            expect_loops=nloops, min_obligations=10, functions=[exs[cname], ws],
+            note='buffer of symbolic length <= 10^8, arbitrary content; loop closed by loop contract', **common))
+    groups.append(Group(
+        name='lex/whitespace-table', entry='h_ws_table', min_obligations=4, functions=[ws],
+        sources={'lex.c': src}, lang='c', canary='CANARY', canary_label='canary', strength='proof', timeout=240,
+        replay=replay_C12.replay_lex,
+        note='links the ghost membership table used for isWhitespace/skipWhitespace/skipToWhitespace to the real array'))
+    return groups
+
+
+# ------------------------------------------------------------ tokenizer.cpp
+
+def file_position_struct(ctx):
+    """C struct for `fp`, from the real member list of class filePosition."""
+    cls = extract_block(ctx, FILE_HPP, r'^[ \t]*class\s+filePosition\s*\{', name='class filePosition')
+    m = re.search(r'public:\s*\n(\s*int\s+line;\s*\n\s*const\s+char\s*\*\s*lineStart;\s*\n\s*const\s+char\s*\*\s*start\s*,\s*\*\s*end;)', cls.text)
+    if not m:
+        raise Undecided('extraction break: data members of class filePosition changed')
+    return cls, 'struct filePosition {\n%s\n};\nstruct filePosition fp;\n' % m.group(1)
+
+
+TOK_INCHARSET = ('C: lex::inCharset -> lex_inCharset', r'\blex::inCharset\(', 'lex_inCharset(', 1)
+
+
+def tok_unit(ctx):
+    cls, fp_struct = file_position_struct(ctx)
+    exs = {'class filePosition': cls}
+    parts = []
+
+    def add(cname, csig, rx, rules, nloops, name, cut=''):
+        ex = extract_function(ctx, TOK_CPP, rx, name=name)
+        what = 'C: signature (+ contract macro)' + ('; text before the loop dropped (STL guards)' if cut else '')
+        text = rewrite(ex, [(what, rx + cut, csig + '\nCONTRACT_' + cname + '\n{\n', 1)] + rules)
+        text, found = insert_loop_contracts(text, {k: 'LOOP_%s_%d' % (cname, k) for k in range(nloops)}, cname)
+        if found != nloops:
+            raise Undecided('extraction break: %s has %d loops, contracts exist for %d' % (cname, found, nloops))
+        parts.append(text)
+        exs[cname] = ex
+
+    add('tokenizer_skipTo_c', 'void tokenizer_skipTo_c(const char delimiter)',
+        r'^[ \t]*void\s+tokenizer_t::skipTo\s*\(\s*const\s+char\s+delimiter\s*\)\s*\{', [], 1,
+        'tokenizer_t::skipTo(const char)')
+    add('tokenizer_skipTo_s', 'void tokenizer_skipTo_s(const char *delimiters)',
+        r'^[ \t]*void\s+tokenizer_t::skipTo\s*\(\s*const\s+char\s*\*\s*delimiters\s*\)\s*\{', [TOK_INCHARSET], 1,
+        'tokenizer_t::skipTo(const char*)')
+    add('tokenizer_skipFrom', 'void tokenizer_skipFrom(const char *delimiters)',
+        r'^[ \t]*void\s+tokenizer_t::skipFrom\s*\(\s*const\s+char\s*\*\s*delimiters\s*\)\s*\{', [TOK_INCHARSET], 1,
+        'tokenizer_t::skipFrom(const char*)')
+    # countSkippedLines: the loop, cut at `const char *pos = last.position.start;`
+    rx = r'^[ \t]*void\s+tokenizer_t::countSkippedLines\s*\(\s*\)\s*\{'
+    add('tokenizer_countSkippedLines_loop',
+        'void tokenizer_countSkippedLines_loop(const char *last_position_start)', rx,
+        [('parameter for stack.back().position.start', r'\blast\.position\.start\b', 'last_position_start', 1)], 1,
+        'tokenizer_t::countSkippedLines() [loop]', cut=r'.*?(?=const\s+char\s*\*\s*pos\s*=)')
+    # getRawString: the end-pattern loop between two marker comments
+    rx = r'^[ \t]*void\s+tokenizer_t::getRawString\s*\(\s*std::string\s*&\s*value\s*\)\s*\{'
+    add('tokenizer_getRawString_endloop',
+        'void tokenizer_getRawString_endloop(const size_t end_size, const char *end_c_str)',
+        rx,
+        [('cut after the loop (marker comment)', r'//\s*Make sure we found delimiter.*\Z', '}', 1),
+         ('parameter for end.size()', r'\bend\.size\(\)', 'end_size', 1),
+         ('parameter for end.c_str()', r'\bend\.c_str\(\)', 'end_c_str', 1)], 2,
+        'tokenizer_t::getRawString() [end-pattern loop]', cut=r'.*?(?=//\s*Find end match)')
+    unit = fp_struct + '_Bool lex_inCharset(const char c, const char *charset)\nCONTRACT_lex_inCharset;\n\n' + '\n\n'.join(parts)
+    return unit, exs
+
+
+TOK_HARNESS = {
+    'tokenizer_skipTo_c': ('ALLOC_BUF; char d; tokenizer_skipTo_c(d);', 1, []),
+    'tokenizer_skipTo_s': ('ALLOC_BUF; const char *ds; verif_cs = verif_cs_arr; tokenizer_skipTo_s(ds);', 1, ['lex_inCharset']),
+    'tokenizer_skipFrom': ('ALLOC_BUF; const char *ds; verif_cs = verif_cs_arr; tokenizer_skipFrom(ds);', 1, ['lex_inCharset']),
+    'tokenizer_countSkippedLines_loop': ('ALLOC_BUF; const char *last; tokenizer_countSkippedLines_loop(last);', 1, []),
+    'tokenizer_getRawString_endloop': ('ALLOC_BUF; size_t n; const char *m; tokenizer_getRawString_endloop(n, m);', 2, []),
+}
+
+
+def tok_groups(ctx):
+    unit, exs = tok_unit(ctx)
+    src = '#include "C12/tokenizer_contracts.h"\n' + GHOSTS + 'char verif_pat_arr[VERIF_K + 1];\n' + unit + '\n\n'
+    for cname, (body, nloops, repl) in TOK_HARNESS.items():
+        src += 'void h_%s(void) {\n  %s%s}\n' % (cname, body, CANARY_BUF)
+    groups = []
+    for cname, (body, nloops, repl) in TOK_HARNESS.items():
+        bounded = cname == 'tokenizer_getRawString_endloop'
+        groups.append(Group(
+            name='tokenizer/' + cname[len('tokenizer_'):], sources={'tokenizer.c': src}, entry='h_' + cname, lang='c',
+            defines=['C12_LINK_ASSUMED'], enforce=[cname], replace=repl, loop_contracts=True,
+            expect_loops=nloops, min_obligations=10, functions=[exs[cname], exs['class filePosition']],
+            canary='CANARY', canary_label='canary', timeout=240,
+            strength='bounded' if bounded else 'proof',
+            bound='end pattern `)delim"` of at most 64 characters; buffer length unbounded (<= 10^8)' if bounded else '',
+            replay=replay_C12.replay_tokenizer,
+            note='fp is a global struct; buffer of symbolic length <= 10^8, arbitrary content'))
+    return groups
+
+
+# scan-then-step fragments of getString / getRawString / getCharToken / getHeader
+
+SCANSTEP_SITES = [
+    ('getString', r'^[ \t]*bool\s+tokenizer_t::getString\s*\(\s*std::string\s*&\s*value\s*,\s*const\s+int\s+encoding\s*\)\s*\{'),
+    ('getRawString', r'^[ \t]*void\s+tokenizer_t::getRawString\s*\(\s*std::string\s*&\s*value\s*\)\s*\{'),
+    ('getCharToken', r'^[ \t]*token_t\s*\*\s*tokenizer_t::getCharToken\s*\(\s*const\s+int\s+encoding\s*\)\s*\{'),
+    ('getHeader', r'^[ \t]*std::string\s+tokenizer_t::getHeader\s*\(\s*\)\s*\{'),
+]
+LIT = r'"(?:[^"\\\n]|\\.)*"'
+SCANSTEP_ALLOWED = {'if', 'return', 'fp', 'start', 'void', 'verif_pushed', 'tokenizer_skipTo_s'}
+
+
+def scanstep_unit(ctx):
+    parts, exs, names = [], {}, []
+    for site, rx in SCANSTEP_SITES:
+        ex = extract_function(ctx, TOK_CPP, rx, name='tokenizer_t::%s() [scan-then-step fragment]' % site)
+        m = re.search(r'\bskipTo\((' + LIT + r')\);', ex.text)
+        if not m or len(re.findall(r'\bskipTo\(' + LIT + r'\);', ex.text)) != 1:
+            raise Undecided('extraction break: %s: expected exactly one skipTo("...") call' % site)
+        lit = m.group(1)
+        cname = 'tokenizer_scanstep_' + site
+        text = rewrite(ex, [
+            ('cut: text before the scan dropped; C signature (+ contract macro)', r'\A.*?(?=\bskipTo\(' + LIT + r'\);)',
+             'void %s(void)\nCONTRACT_tokenizer_scanstep(verif_lit_%s)\n{\n      ' % (cname, site), 1),
+            ('cut: text after the first `++fp.start;` that follows the scan dropped', r'\A(.*?\+\+fp\.start;).*\Z', r'\1\n}', 1),
+            ('C: tokenizer_t::skipTo(const char*) -> tokenizer_skipTo_s; the set literal gets a name',
+             r'\bskipTo\(' + LIT + r'\);', 'tokenizer_skipTo_s(verif_lit_%s);' % site, 1),
+            ('dropped: diagnostics', r'\bprintError\((?:' + LIT + r'|[^;"])*\);', '', '*'),
+            ('popAndRewind() -> the cursor goes back to a pushed position (ghost verif_pushed, inside the buffer)',
+             r'\bpopAndRewind\(\);', 'fp.start = verif_pushed;', '*'),
+            ('dropped: origin-stack bookkeeping', r'\bpop\(\);', '', None),
+            ('dropped: std::string value extraction (does not touch the cursor)',
+             r'^[ \t]*(?:const\s+)?std::string\s+\w+(?:\s*=[^;]*)?;|^[ \t]*end\s*\+=[^;]*;|^[ \t]*value\s*=\s*unescape\([^;]*;', '', '*'),
+            ('C: return <value> -> return (only the cursor is under contract)', r'\breturn\s+(?:false|NULL);', 'return;', '*'),
+        ])
+        body = re.sub(r'//[^\n]*', '', text[text.index('{'):])
+        body = re.sub(r"'(?:[^'\\]|\\.)'", '', body)
+        left = set(re.findall(r'[A-Za-z_]\w*', body)) - SCANSTEP_ALLOWED - {'verif_lit_' + site}
+        if left:
+            raise Undecided('extraction break: scan-then-step fragment of %s contains statements the recipe does not '
+                            'model: %s' % (site, sorted(left)))
+        parts.append('static const char verif_lit_%s[] = %s;\n%s' % (site, lit, text))
+        exs[site] = ex
+        names.append((site, cname))
+    return '\n\n'.join(parts), exs, names
+
+
+def scanstep_groups(ctx):
+    cls, fp_struct = file_position_struct(ctx)
+    unit, exs, names = scanstep_unit(ctx)
+    src = ('#include "C12/tokenizer_contracts.h"\n' + GHOSTS + 'const char *verif_pushed;\n' + fp_struct +
+           'void tokenizer_skipTo_s(const char *delimiters)\nCONTRACT_tokenizer_skipTo_s;\n\n' + unit + '\n\n')
+    for site, cname in names:
+        src += ('void h_%s(void) {\n  ALLOC_BUF; verif_cs = verif_lit_%s; verif_cs_len = sizeof(verif_lit_%s) - 1;\n  %s();%s}\n'
+                % (cname, site, site, cname, CANARY_BUF))
+    groups = []
+    for site, cname in names:
+        groups.append(Group(
+            name='tokenizer/scan-then-step/' + site, sources={'scanstep.c': src}, entry='h_' + cname, lang='c',
+            defines=['C12_LINK_ASSUMED'], enforce=[cname], replace=['tokenizer_skipTo_s'], loop_contracts=True,
+            min_obligations=10, functions=[exs[site], cls], canary='CANARY', canary_label='canary', timeout=240,
+            strength='proof', replay=replay_C12.replay_scanstep,
+            note='fragment from skipTo("<c>\\n") to the following ++fp.start; skipTo replaced by its contract'))
+    return groups
+
+
+# ------------------------------------------------------------ primitive.cpp
+
+def primitive_type_defines(ctx):
+    """#define primitiveType_X for every `static const int X = e;` of namespace primitiveType (real header)."""
+    ns = extract_block(ctx, PRIM_HPP, r'^[ \t]*namespace\s+primitiveType\s*\{', name='namespace primitiveType')
+    items = re.findall(r'static\s+const\s+int\s+(\w+)\s*=\s*([^;]+);', ns.text)
+    names = [n for n, _ in items]
+    for need in ('none', 'bool_', 'int8_', 'uint8_', 'int16_', 'uint16_', 'int32_', 'uint32_', 'int64_', 'uint64_',
+                 'float_', 'double_', 'isFloat'):
+        if need not in names:
+            raise Undecided('extraction break: primitiveType::%s not found' % need)
+    out = []
+    for n, e in items:
+        e = re.sub(r'\b(%s)\b' % '|'.join(map(re.escape, names)), r'primitiveType_\1', ' '.join(e.split()))
+        out.append('#define primitiveType_%s (%s)' % (n, e))
+    return ns, '\n'.join(out) + '\n'
+
+
+PRIM_COMMON_RULES = [
+    ('C: primitive() -> primitive_ctor()', r'\bprimitive\(\)', 'primitive_ctor()', None),
+    ('C: primitive((T) e) -> primitive_of_T((T) e)  (constructor overload selected by the cast type)',
+     r'\bprimitive\(\((\w+)\) ', r'primitive_of_\1((\1) ', 8),
+]
+
+
+def prim_unit(ctx):
+    ns, defines = primitive_type_defines(ctx)
+    exs = {'namespace primitiveType': ns}
+    up = extract_function(ctx, STRING_HPP, r'^[ \t]*inline\s+char\s+uppercase\s*\(\s*const\s+char\s+c\s*\)\s*\{', name='uppercase(char)')
+    up_c = rewrite(up, [('C: inline -> static', r'\binline\b', 'static', 1)])
+    exs['uppercase'] = up
+    # default argument of load(const char*&, bool includeSign = true), made explicit at the recursive call
+    if not re.search(r'static\s+primitive\s+load\s*\(\s*const\s+char\s*\*\s*&\s*c\s*,\s*const\s+bool\s+includeSign\s*=\s*true\s*\)',
+                     ctx.read(PRIM_HPP)):
+        raise Undecided('extraction break: default argument includeSign = true of primitive::load changed')
+    parts = []
+    for cname, kind in (('primitive_loadBinary', 'loadBinary'), ('primitive_loadHex', 'loadHex')):
+        rx = r'^[ \t]*primitive\s+primitive::%s\s*\(\s*const\s+char\s*\*\s*&\s*c\s*,\s*const\s+bool\s+isNegative\s*\)\s*\{' % kind
+        ex = extract_function(ctx, PRIM_CPP, rx, name='primitive::' + kind)
+        text = rewrite(ex, [('C: signature (+ contract macro)', rx,
+                             'primitive %s(const char **c_, const bool isNegative)\nCONTRACT_%s%s' % (cname, cname, REF_OPEN), 1)]
+                       + PRIM_COMMON_RULES + [REF_CLOSE])
+        text, found = insert_loop_contracts(text, {0: 'LOOP_%s_0' % cname}, cname)
+        if found != 1:
+            raise Undecided('extraction break: %s has %d loops, expected 1' % (cname, found))
+        parts.append(text)
+        exs[cname] = ex
+    rx = r'^[ \t]*primitive\s+primitive::load\s*\(\s*const\s+char\s*\*\s*&\s*c\s*,\s*const\s+bool\s+includeSign\s*\)\s*\{'
+    ex = extract_function(ctx, PRIM_CPP, rx, name='primitive::load(const char*&, bool)')
+    text = rewrite(ex, [
+        ('C: signature (+ contract macro)', rx,
+         'primitive primitive_load(const char **c_, const bool includeSign)\nCONTRACT_primitive_load' + REF_OPEN, 1),
+        ('C: default construction made explicit', r'\bprimitive p;', 'primitive p = primitive_ctor();', 1),
+        ('C: primitive() -> primitive_ctor()', r'\bprimitive\(\)', 'primitive_ctor()', None),
+        ('C: p = bool literal -> primitive_of_bool', r'\bp = (true|false);', r'p = primitive_of_bool(\1);', 2),
+        ('C: p.source = "literal" -> model call (source text is not part of the cursor contract)',
+         r'\bp\.source = ("[a-z]+");', r'primitive_set_source_lit(&p, \1);', 2),
+        ('C: p.source = std::string(c0, c - c0) -> model call that checks the range',
+         r'\bp\.source = std::string\(c0, c - c0\);', 'primitive_set_source(&p, c0, c - c0);', 2),
+        ('C: occa::parseFloat/parseDouble(std::string(c0, c - c0)) -> uninterpreted model that checks the range',
+         r'\bocca::parse(Float|Double)\(std::string\(c0, c - c0\)\)', r'occa_parse\1(c0, c - c0)', 2),
+        ('C: parseInt(std::string(c0, c - c0)) -> uninterpreted model that checks the range',
+         r'\bparseInt\(std::string\(c0, c - c0\)\)', 'occa_parseInt(c0, c - c0)', 1),
+        ('C: p = (T) e -> p = primitive_of_T((T) e)  (converting constructor selected by the cast type)',
+         r'\bp = \((float|double|uint32_t|int32_t|uint64_t|int64_t)\) ([^;]+);', r'p = primitive_of_\1((\1) \2);', 6),
+        ('C: p.to<T>() -> primitive_to_T(p)', r'\bp\.to<(\w+)>\(\)', r'primitive_to_\1(p)', 4),
+        ('C: primitiveType::x -> primitiveType_x', r'\bprimitiveType::', 'primitiveType_', 2),
+        ('C: lex::skipWhitespace(c) -> lex_skipWhitespace(c_)  (reference argument)', r'\blex::skipWhitespace\(c\)', 'lex_skipWhitespace(c_)', 1),
+        ('C: primitive::loadBinary/loadHex(++c, negative): reference argument -> (++c, c_)',
+         r'\bprimitive::(loadBinary|loadHex)\(\+\+c, negative\)', r'primitive_\1((++c, c_), negative)', 2),
+        ('C: recursive primitive::load(++c) -> primitive_load_rec((++c, c_), true): the recursive call is replaced by '
+         "the function's own contract (induction); default argument made explicit",
+         r'\bprimitive::load\(\+\+c\)', 'primitive_load_rec((++c, c_), true)', 1),
+        ('libc strlen/strncmp -> verif_strlen/verif_strncmp (assumed contracts instead of CBMC library bodies)',
+         r'\b(strlen|strncmp)\(', r'verif_\1(', 3),
+        REF_CLOSE])
+    text, found = insert_loop_contracts(text, {0: 'LOOP_primitive_load_0', 1: 'LOOP_primitive_load_1'}, 'primitive_load')
+    if found != 2:
+        raise Undecided('extraction break: primitive::load has %d loops, expected 2' % found)
+    exs['primitive_load'] = ex
+    decls = ('void lex_skipWhitespace(const char **c_)\nCONTRACT_lex_skipWhitespace;\n'
+             'size_t verif_strlen(const char *s)\nCONTRACT_verif_strlen;\n'
+             'int verif_strncmp(const char *a, const char *b, size_t n)\nCONTRACT_verif_strncmp;\n'
+             'primitive primitive_load_rec(const char **c_, const bool includeSign)\nCONTRACT_primitive_load_rec;\n')
+    unit = up_c + '\n' + decls + '\n' + '\n\n'.join(parts) + '\n\n' + text
+    return defines, unit, exs
+
+
+def prim_groups(ctx):
+    defines, unit, exs = prim_unit(ctx)
+    ws = extract_span(ctx, LEX_CPP, r'^[ \t]*const char whitespaceCharset\[\]\s*=', r';', name='lex::whitespaceCharset')
+    ws_c = rewrite(ws, [('C: lex::whitespaceCharset -> lex_whitespaceCharset', r'\bwhitespaceCharset\b', 'lex_whitespaceCharset', 1)])
+    src = (defines + ws_c.strip() + '\n#include "C12/primitive_contracts.h"\n' + GHOSTS + 'size_t verif_load_entry;\n'
+           + unit + '\n\n')
+    src += 'void h_primitive_loadBinary(void) {\n  ALLOC_BUF; const char *cur; const char **c = &cur; _Bool neg; primitive_loadBinary(c, neg);%s}\n' % CANARY_BUF
+    src += 'void h_primitive_loadHex(void) {\n  ALLOC_BUF; const char *cur; const char **c = &cur; _Bool neg; primitive_loadHex(c, neg);%s}\n' % CANARY_BUF
+    src += ('void h_primitive_load(void) {\n  ALLOC_BUF; const char *cur; const char **c = &cur; _Bool sign;\n'
+            '  verif_cs = lex_whitespaceCharset; verif_cs_len = sizeof(lex_whitespaceCharset) - 1;\n'
+            '  primitive_load(c, sign);%s}\n' % CANARY_BUF)
+    common = dict(sources={'primitive.c': src}, lang='c', loop_contracts=True, canary='CANARY', canary_label='canary',
+                  strength='proof', timeout=300, defines=['C12_LINK_ASSUMED'], object_bits=10,
+                  replay=replay_C12.replay_primitive)
+    fx = [exs['namespace primitiveType'], exs['uppercase']]
+    groups = [
+        Group(name='primitive/loadBinary', entry='h_primitive_loadBinary', enforce=['primitive_loadBinary'],
+              expect_loops=1, min_obligations=10, functions=[exs['primitive_loadBinary']] + fx, **common),
+        Group(name='primitive/loadHex', entry='h_primitive_loadHex', enforce=['primitive_loadHex'],
+              expect_loops=1, min_obligations=10, functions=[exs['primitive_loadHex']] + fx, **common),
+        Group(name='primitive/load', entry='h_primitive_load', enforce=['primitive_load'],
+              replace=['primitive_load_rec', 'primitive_loadBinary', 'primitive_loadHex', 'lex_skipWhitespace',
+                       'verif_strlen', 'verif_strncmp'],
+              expect_loops=2, min_obligations=20, functions=[exs['primitive_load'], ws] + fx,
+              assumptions=['assumed contracts: libc strlen/strncmp (verif_strlen/verif_strncmp), parseInt/parseFloat/'
+                           'parseDouble and primitive constructors/to<T>() as type-tag models'],
+              **common),
+    ]
+    return groups
+
+
+# ------------------------------------------------------------ string.cpp: escape / unescape
+
+ESCAPE_HARNESS = r"""
+using namespace occa;
+
+/* every byte string of length <= VERIF_N (all 256 byte values, NUL included) */
+static std::string any_string() {
+  std::string s;
+  size_t n = nondet_ulong();
+  __CPROVER_assume(n <= VERIF_N);
+  for (size_t i = 0; i < n; ++i) s += nondet_char();
+  return s;
+}
+
+/* q is the character to escape (a quote), e the escape character.  The codec is
+   specified for q != 0 (a NUL "quote" collides with the terminator that
+   unescape reads at cstr[i + 1]) and q != e. */
+#define CODEC_PARAMS \
+  char q = nondet_char(), e = nondet_char(); \
+  __CPROVER_assume(q != 0 && q != e)
+
+extern "C" void h_roundtrip() {
+  CODEC_PARAMS;
+  std::string s = any_string();
+  std::string r = escape(s, q, e);
+  std::string u = unescape(r, q, e);
+  __CPROVER_assert(u == s, "unescape(escape(s, q, e), q, e) == s");
+  __CPROVER_assert(r.size() >= s.size() && r.size() <= 2 * s.size(), "escape adds at most one character per character");
+#ifdef CANARY
+  __CPROVER_assert(r == s, "canary: escape changes some string");
+#endif
+}
+
+extern "C" void h_quotes_escaped() {
+  CODEC_PARAMS;
+  __CPROVER_assume(e != 0);
+  std::string s = any_string();
+  std::string r = escape(s, q, e);
+  size_t j = nondet_ulong();
+  __CPROVER_assume(j < r.size());
+  if (r[j] == q) {
+    __CPROVER_assert(j >= 1 && r[j - 1] == e, "every quote in escape(s, q, e) is preceded by the escape character");
+  }
+#ifdef CANARY
+  __CPROVER_assert(r[j] != q, "canary: some output contains a quote");
+#endif
+}
+
+/* body of a literal as the scanners accept it (lex::skipTo(c, q, e) /
+   tokenizer_t::skipTo): a sequence of units, each either one character other
+   than q and e, or e followed by any character; no bare q, no dangling e */
+static bool well_formed(const std::string &raw, char q, char e) {
+  size_t i = 0;
+  while (i < raw.size()) {
+    if (raw[i] == e) { if (i + 1 >= raw.size()) return false; i += 2; }
+    else if (raw[i] == q) return false;
+    else ++i;
+  }
+  return true;
+}
+
+extern "C" void h_spelling_roundtrip() {
+  CODEC_PARAMS;
+  __CPROVER_assume(e != 0);
+  std::string raw = any_string();
+  __CPROVER_assume(well_formed(raw, q, e));
+  std::string value = unescape(raw, q, e);      /* what getString()/getCharToken() store */
+  std::string printed = escape(value, q, e);    /* what stringToken::print()/charToken::print() emit */
+  __CPROVER_assert(printed == raw, "escape(unescape(body, q, e), q, e) == body for every well-formed literal body");
+  __CPROVER_assert(well_formed(printed, q, e), "the printed literal body is scanned to its end by the tokenizer");
+#ifdef CANARY
+  __CPROVER_assert(value == raw, "canary: unescape changes some body");
+#endif
+}
+"""
+
+
+def escape_groups(ctx):
+    n = 4 if ctx.tier == 'quick' else 6
+    esc = extract_function(ctx, STRING_CPP, r'^[ \t]*std::string\s+escape\s*\(\s*const\s+std::string\s*&\s*str\s*,\s*const\s+char\s+c\s*,'
+                           r'\s*const\s+char\s+escapeChar\s*\)\s*\{', name='escape')
+    une = extract_function(ctx, STRING_CPP, r'^[ \t]*std::string\s+unescape\s*\(\s*const\s+std::string\s*&\s*str\s*,\s*const\s+char\s+c\s*,'
+                           r'\s*const\s+char\s+escapeChar\s*\)\s*\{', name='unescape')
+    src = '#include <string>\nnamespace occa {\n%s\n\n%s\n}\n' % (esc.text, une.text) + ESCAPE_HARNESS
+    groups = []
+    for entry, mino in (('h_roundtrip', 2), ('h_quotes_escaped', 1), ('h_spelling_roundtrip', 2)):
+        groups.append(Group(
+            name='escape/' + entry[2:], sources={'escape.cpp': src}, entry=entry, lang='cpp',
+            defines=['VERIF_N=%d' % n], unwind=2 * n + 3, object_bits=12, min_obligations=mino,
+            functions=[esc, une], canary='CANARY', canary_label='canary', strength='bounded',
+            bound='every byte string of length <= %d (all byte values), every quote q != 0 and escape character e != q' % n,
+            timeout=900, replay=replay_C12.replay_escape,
+            note='real text of escape/unescape through the C++ front end with the fixed-capacity std::string stub'))
     return groups
 
 
 def build(ctx):
     groups = []
     groups += lex_groups(ctx)
+    groups += tok_groups(ctx)
+    groups += scanstep_groups(ctx)
+    groups += prim_groups(ctx)
+    groups += escape_groups(ctx)
+    for g in groups:
+        # CaDiCaL (built into cbmc 6.11) instead of the default MiniSat where MiniSat is unlucky: the escape-aware
+        # ghost-index invariant of lex/skipTo_se is a small but hard instance (MiniSat 122 s, CaDiCaL 8 s);
+        # elsewhere MiniSat is as fast or faster (getRawString: 13 s vs 43 s)
+        if g.name in ('lex/skipTo_se',):
+            g.extra_cbmc = ['--sat-solver', 'cadical']
+    only = os.environ.get('VERIF_C12_ONLY')      # development aid: run a subset of the groups
+    if only:
+        groups = [g for g in groups if re.search(only, g.name)]
     return groups
